@@ -606,6 +606,55 @@ func parseBVModel(val string) uint64 {
 	return 0
 }
 
+// askValue decides pc && extra and, when sat, returns the model value of the bit-vector term t
+func (s *Solver) askValue(pc []*Term, extra *Term, t *Term) (bool, uint64, bool) {
+	if extra.isC && extra.c == 0 {
+		return false, 0, false
+	}
+	t0 := time.Now()
+	defer func() { s.secs += time.Since(t0).Seconds() }()
+	s.sync(pc)
+	s.declare(extra)
+	s.declare(t)
+	s.queries++
+	fmt.Fprintf(s.in, "(push 1)\n(assert %s)\n(check-sat)\n", extra.s)
+	line := s.readLine()
+	if strings.HasPrefix(line, "(error") {
+		s.errors = append(s.errors, line)
+		s.readLine()
+		fmt.Fprintln(s.in, "(pop 1)")
+		s.unknown++
+		return false, 0, true
+	}
+	if line == "unsat" {
+		fmt.Fprintln(s.in, "(pop 1)")
+		return false, 0, false
+	}
+	if line != "sat" {
+		fmt.Fprintln(s.in, "(pop 1)")
+		s.unknown++
+		return false, 0, true
+	}
+	fmt.Fprintf(s.in, "(get-value (%s))\n", t.s)
+	l := s.readLine()
+	for strings.Count(l, "(") > strings.Count(l, ")") {
+		l += " " + s.readLine()
+	}
+	fmt.Fprintln(s.in, "(pop 1)")
+	// l = ((<term> <value>)): the value is the last atom or (_ bvN w) list
+	l = strings.TrimSpace(l)
+	l = strings.TrimSuffix(strings.TrimSuffix(l, ")"), ")")
+	if k := strings.LastIndex(l, "(_ bv"); k >= 0 {
+		return true, parseBVModel(l[k:]), false
+	}
+	k := strings.LastIndex(l, "#")
+	if k < 0 {
+		s.unknown++
+		return false, 0, true
+	}
+	return true, parseBVModel(l[k:]), false
+}
+
 func (s *Solver) Close() { s.in.Close(); s.cmd.Wait() }
 
 // parse "((x (fp #b0 #b... #b...)))" or "(_ NaN 11 53)" etc. into float bits
